@@ -137,6 +137,19 @@ OPT_IN classes (never produced unless listed in ``allow``; each is tied to a kno
         program.expect == {"outcome": "RTMASyntaxError", "at": <message>}, FieldSpec.length == 0 in the model;
         truncated is ACCEPTED by the reference compiler (int() truncates): wellformed stays True, FieldSpec.length == int(A/B),
         program.expect == {"outcome": "ok", "at": <message>}
+    "inexact-div-length": array lengths over whole-number constants with '/' whose quotient is NOT whole and is used further before the
+        final truncation (``(X / Y) * Z``, ``X / 2 + X / 2``, ``Z * (X / Y)``, also a lone ``X / Y``); FieldSpec.length is int() of the value
+        computed with true division (the documented arithmetic); classes "inexact-div-length" (+ "div-length", "expr-length")
+    "rich-operators": constant and array-length expressions with << >> | & ^ ~ // % ** and unary signs (whole numbers >= 1 throughout);
+        class "rich-operators".  EXPR_CHARS / eval_expression(text, env) are the model's reading of an expression
+    "many-symbols": once per closure 11-16 small constants <STEM>_1 .. <STEM>_k plus one constant whose expression names all of them;
+        array lengths that name all of them; class "many-symbols" (problems() then waives its own ten-symbol rule)
+    "string-control": string constants with real control characters (line break, tab, carriage return, form feed); class "string-control"
+    HYGIENE (not an ``allow`` class): add_hygiene(program, ch, kind=None) -> Program | None appends ONE construct a careful compiler
+        refuses and a careless one writes verbatim into its outputs (kinds: HYGIENE_KINDS; HYGIENE_LEGAL_IDENTIFIERS = those whose names are
+        identifiers in all four languages); wellformed False, classes "hygiene", "hygiene/<kind>", expect {"outcome": "ok-or-refused",
+        "hygiene": kind, "label": construct class for finding keys, "at", "name", "legal_identifiers"}; minimal_program(import_coredefs)
+        is the smallest base; hygiene_programs(kinds=None, **kw) is the strategy (programs(**kw) + one drawn kind)
     "alias-of-imported-struct" (F16 emission order)   "alias-of-imported-struct-field" (F15 TypeError in the parser)
     "struct-contains-message" (F16)   "string-special" (F22)   "prefix-names" (F20)
     "zero-length" is still accepted in ``allow`` but generates nothing any more: since the repository's fix for F21
@@ -179,10 +192,27 @@ BY_WIDTH = {w: [n for n in NATIVE_NAMES if NATIVES[n] == w] for w in (1, 2, 4, 8
 LENGTHS = [1, 2, 3, 7, 8, 32, 255, 256, 1000]
 RESERVED_FIELD_NAMES = ("type_id", "type_name", "type_hash", "type_source", "type_def", "type_size", "hexdump")
 OPT_IN = ("alias-of-imported-struct", "alias-of-imported-struct-field", "struct-contains-message", "string-special",
-          "prefix-names", "zero-length", "long-names", "fractional-length", "reserved-field-name", "reserved-loose", "signed-char", "padding-field-name")
+          "prefix-names", "zero-length", "long-names", "fractional-length", "reserved-field-name", "reserved-loose", "signed-char", "padding-field-name",
+          "inexact-div-length", "rich-operators", "many-symbols", "string-control")
 COVER_NAME_LENGTHS = [1, 2, 31, 32, 40, 45, 46, 47, 48, 63]
 MAX_NAME_LENGTH = 63  # MATLAB's namelengthmax
 MAX_SIZE = 65535
+
+# what is left of a constant / array-length expression once every constant name is replaced by its value: numbers (decimal, hex,
+# float), parentheses, blanks and the operators Python's arithmetic on numbers knows (+ - * / // % ** << >> | & ^ ~)
+EXPR_CHARS = r"[0-9a-fA-FxX.+\-*/() eE<>|&^~%]*"
+
+
+def eval_expression(text: str, env: Dict[str, Any]):
+    """Value of a constant / array-length expression the way the documentation defines it: every constant name is replaced (as
+    a whole word) by the text of its value, the rest is arithmetic on numbers.  KeyError for a name that is not in ``env``."""
+    expr = text
+    for sym in dict.fromkeys(re.findall(r"\b[a-zA-Z_]+\w*\b", text)):
+        expr = re.sub(rf"\b{sym}\b", str(env[sym]), expr)
+    if not re.fullmatch(EXPR_CHARS, expr):
+        raise ValueError(f"unexpected characters in expression {text!r} -> {expr!r}")
+    return eval(expr, {"__builtins__": {}}, {})
+
 
 SECTIONS = ["constants", "string_constants", "aliases", "host_ids", "module_ids", "struct_defs", "message_defs"]
 SECTION_OF = {"constant": "constants", "string": "string_constants", "alias": "aliases", "host": "host_ids",
@@ -207,6 +237,8 @@ _COMMENT_WORDS = ["units in mm", "see spec", "do not change", "legacy", "TODO: c
                   "id: 9999", "fields: null", "range 0-100", "# nested", "int32[4]", "temporary"]
 _STRING_WORDS = ["hello world", "rig_A", "v1", "left", "right", "calibration", "subject 7", "alpha-beta", "OK", "x"]
 _STRING_SPECIAL = ['say "hi"', "back\\slash", "it's", "tab\\t", 'q"', "a # b", "50% done", "{curly}"]
+# real control characters (line break, tab, carriage return, form feed): legal content of a string constant
+_STRING_CONTROL = ["line1\nline2", "ends with a line break\n", "\nstarts with one", "col1\tcol2", "dos\r\nline", "two\n\nbreaks", 'q"\n"q', "50%\n\\n", "page\x0cbreak", "\t"]
 _DIRS = ["", "common", "shared", "proj", "core_defs"]  # a user directory may well be called like the package's own one
 _FILEWORDS = ["base", "types", "hardware", "task", "decoder", "stim", "extra", "units", "robot", "logging"]
 
@@ -784,9 +816,9 @@ class _Analysis:
                     prob(f"{user.name}: expression {text!r} uses {sym} which is not a visible constant")
                     return None
                 expr = re.sub(rf"\b{sym}\b", str(v), expr)
-            if n > 10:
+            if n > 10 and "many-symbols" not in p.classes:
                 prob(f"{user.name}: more than 10 symbols in {text!r}")
-            if not re.fullmatch(r"[0-9a-fA-FxX.+\-*/() eE]*", expr):
+            if not re.fullmatch(EXPR_CHARS, expr):
                 prob(f"{user.name}: expression {text!r} has unexpected characters")
                 return None
             try:
@@ -1075,7 +1107,11 @@ def _render_def(d: Def, ind: str) -> List[str]:
         return [f"{ind}{d.name}: {d.text}{post}"]
     if d.kind == "string":
         q = d.style.get("quote", '"')
+        if re.search(r"[\x00-\x1f\x7f]", d.value):
+            q = '"'  # control characters need the escapes of YAML's double-quoted style
         v = d.value.replace("'", "''") if q == "'" else d.value.replace("\\", "\\\\").replace('"', '\\"')
+        if q == '"':
+            v = re.sub(r"[\x00-\x1f\x7f]", lambda m: {"\n": "\\n", "\t": "\\t", "\r": "\\r"}.get(m.group(), "\\x%02x" % ord(m.group())), v)
         return [f"{ind}{d.name}: {q}{v}{q}{post}"]
     if d.kind == "alias":
         return [f"{ind}{d.name}: {d.value}{post}"]
@@ -1221,6 +1257,8 @@ class _Builder:
         self.taint: Dict[str, Set[str]] = {}  # struct/message/alias -> opt-in classes it (transitively) contains
         self.ncomment = 0
         self._hasmsg: Dict[str, bool] = {}
+        self.many: List[Def] = []  # class "many-symbols": 11-16 constants that are named together in one expression
+        self.many_file: Optional[str] = None
 
     # ---- names and ids -------------------------------------------------------------------------
     def fresh_name(self, kind: Optional[str] = None) -> str:
@@ -1330,9 +1368,14 @@ class _Builder:
         for _ in range(quota["constant"]):
             ints_imp = [d for d in self.visible_defs(vis_files, ["constant"]) if isinstance(d.value, int) and 1 <= d.value <= 1000]
             ints_loc = [d for d in local if d.kind == "constant" and isinstance(d.value, int) and 1 <= d.value <= 1000]
-            kind = ch.weighted([("int", 5), ("expr", 4 if (ints_imp or ints_loc) else 0), ("float", 2), ("hex", 1), ("family", 3)])
+            kind = ch.weighted([("int", 5), ("expr", 4 if (ints_imp or ints_loc) else 0), ("float", 2), ("hex", 1), ("family", 3),
+                                ("many", 2 if "many-symbols" in self.allow and not self.many else 0)])
             if kind == "family":
                 for d in self.gen_family(path):
+                    add(d)
+                continue
+            if kind == "many":
+                for d in self.gen_many(path):
                     add(d)
                 continue
             name = self.fresh_name("constant")
@@ -1357,13 +1400,15 @@ class _Builder:
                     flags.append("const-expr-imported")
                 if ch.chance(0.3) and len(ints_imp + ints_loc) > 1:
                     other = ch.choice([d for d in ints_imp + ints_loc if d is not src])
-                    text = f"{text} + {other.name}"
+                    text = f"({text}) + {other.name}" if re.search(r"[<>|&^~%]", text) else f"{text} + {other.name}"  # '+' binds tighter than shifts / bitwise
                     v = v + other.value
             add(Def("constant", name, path, value=v, text=text, flags=flags))
         # string constants ----------------------------------------------------------------------------
         for _ in range(quota["string"]):
             name = self.fresh_name()
-            if "string-special" in self.allow and ch.chance(0.3):
+            if "string-control" in self.allow and ch.chance(0.3):
+                add(Def("string", name, path, value=ch.cos.choice(_STRING_CONTROL), flags=["string-const", "string-control"], style={"quote": '"'}))
+            elif "string-special" in self.allow and ch.chance(0.3):
                 add(Def("string", name, path, value=ch.cos.choice(_STRING_SPECIAL), flags=["string-const", "string-special"],
                         style={"quote": "'"}))
             else:
@@ -1467,6 +1512,31 @@ class _Builder:
         self.classes.add("const-family")
         return out
 
+    def gen_many(self, path: str) -> List[Def]:
+        """11-16 small whole-number constants and one constant whose expression names ALL of them (a sum, partly products): an
+        expression may name any number of constants.  The members are remembered (self.many) for array lengths of that kind."""
+        ch, cs = self.ch, self.ch.cos
+        k = ch.integer(11, 16)
+        stem = self.fresh_name("constant")
+        members = []
+        for i in range(1, k + 1):
+            nm = f"{stem}_{i}"
+            self.names.add(nm)
+            v = cs.choice([1, 1, 2, 3, 4, 5])
+            members.append(Def("constant", nm, path, value=v, text=str(v), flags=["const-int", "many-symbols"]))
+        order = cs.shuffled(members) if cs.chance(0.5) else list(members)
+        text, val = order[0].name, order[0].value
+        for m in order[1:]:
+            if cs.chance(0.2) and val * m.value <= 2000:
+                text, val = f"({text}) * {m.name}", val * m.value
+            else:
+                text, val = f"{text} + {m.name}", val + m.value
+        total = Def("constant", self.fresh_name("constant"), path, value=val, text=text, flags=["const-expr", "many-symbols"])
+        self.many = members
+        self.many_file = path
+        self.classes.add("many-symbols")
+        return members + [total]
+
     def gen_reserved(self, path: str) -> Def:
         ch = self.ch
         entries, flags = [], []
@@ -1525,6 +1595,20 @@ class _Builder:
         if cval % 2 == 0 and cval >= 2:
             forms.append((f"{cname} / 2", cval / 2))  # true division: the compiler's value is a float (8.0)
         forms = [f for f in forms if 1 <= f[1] <= limit] or [(cname, cval)]
+        if "rich-operators" in self.allow and ch.chance(0.45):
+            # every operator Python's arithmetic knows on whole numbers (the compiler evaluates the expanded text as such): shifts,
+            # bitwise, floor division, remainder, power, unary signs.  All values stay whole numbers >= 1, printed as plain numbers.
+            rich = [(f"{cname} << 1", cval << 1), (f"{cname} >> 1", cval >> 1), (f"{cname} | 1", cval | 1), (f"{cname} & 0xFF", cval & 0xFF),
+                    (f"{cname} ^ 1", cval ^ 1), (f"~{cname} & 0xFF", ~cval & 0xFF), (f"{cname} // 2", cval // 2), (f"{cname} % 7 + 1", cval % 7 + 1),
+                    (f"{cname} ** 2", cval ** 2), (f"-{cname} + 3 * {cname}", 2 * cval), (f"+{cname}", cval), (f"2 ** 3 + {cname}", 8 + cval),
+                    (f"({cname} + 7) // 8 * 8", (cval + 7) // 8 * 8), (f"{cname} * -1 * -1", cval), (f"({cname} | 0x10) >> 2", (cval | 0x10) >> 2),
+                    (f"{cname} - -1", cval + 1)]
+            if cval <= 10:
+                rich += [(f"1 << {cname}", 1 << cval), (f"(1 << {cname}) - 1", (1 << cval) - 1), (f"2 ** {cname}", 2 ** cval)]
+            rich = [f for f in rich if 1 <= f[1] <= limit]
+            if rich:
+                self.classes.add("rich-operators")
+                return ch.choice(rich)
         return ch.choice(forms)
 
     # ---- structs and messages ---------------------------------------------------------------------
@@ -1635,8 +1719,29 @@ class _Builder:
                 if consts and ch.chance(0.4):
                     fam = [(x, y) for x in consts for y in consts if x is not y and x.name in y.name]
                     div = [(x, y) for x in consts for y in consts if x is not y and y.value > 1 and x.value % y.value == 0]
-                    how = ch.weighted([("one", 6), ("family", 5 if fam else 0), ("div", 3 if div else 0)])
-                    if how == "family":
+                    inex = []
+                    if "inexact-div-length" in self.allow:
+                        # X / Y whose quotient is NOT whole and is used further before the final truncation (the compiler evaluates
+                        # with true division and truncates the result once: (12 / 8) * 4 is 6 elements, N / 2 + N / 2 is N for odd N)
+                        inex = [(x, y.name, y.value) for x in consts for y in consts if x is not y and 1 < y.value < x.value and x.value % y.value]
+                        inex += [(x, str(k), k) for x in consts for k in (2, 4, 8, 3) if x.value > k and x.value % k]
+                    many = self.many if self.many and (self.many_file == path or self.many_file in vis_files) else []
+                    how = ch.weighted([("one", 6), ("family", 5 if fam else 0), ("div", 3 if div else 0), ("inexact", 5 if inex else 0),
+                                       ("many", 6 if many else 0)])
+                    if how == "many":
+                        ltext = " + ".join(m.name for m in (ch.cos.shuffled(many) if ch.cos.chance(0.5) else many))
+                        length = sum(m.value for m in many)
+                        fl.add("many-symbols")
+                    elif how == "inexact":
+                        x, yt, yv = ch.choice(inex[:32])
+                        small = [c for c in consts if c.value <= 64 and c is not x] or [x]
+                        z = ch.choice(small)
+                        ltext = ch.choice([f"({x.name} / {yt}) * {z.name}", f"{x.name} / {yt} * {z.name}", f"{z.name} * ({x.name} / {yt})",
+                                           f"{x.name} / {yt} + {x.name} / {yt}", f"({x.name} / {yt}) * 2", f"({x.name} / {yt} + 1) * 2",
+                                           f"{x.name} / {yt} * 4 + {z.name}", f"{x.name} / {yt}", f"({x.name} + 1) / {yt} + {z.name}"])
+                        length = int(eval_expression(ltext, {c.name: c.value for c in consts}))
+                        fl.add("inexact-div-length")
+                    elif how == "family":
                         x, y = ch.choice(fam[:16])
                         ltext, length = ch.choice([(f"{x.name} + {y.name}", x.value + y.value), (f"{y.name} + {x.name}", x.value + y.value),
                                                    (f"{y.name} * {x.name}", x.value * y.value), (f"{x.name} * 2 + {y.name}", 2 * x.value + y.value)])
@@ -1651,6 +1756,8 @@ class _Builder:
                     if length > room or length < 1:
                         length, ltext = None, None
                         fl.discard("family-length")
+                        fl.discard("inexact-div-length")
+                        fl.discard("many-symbols")
                     else:
                         fl.add("expr-length")
                         if "/" in ltext:
@@ -2033,6 +2140,197 @@ def add_fractional_length(program: Program, ch: Chooser, variant: Optional[str] 
         q.expect = {"outcome": "RTMASyntaxError", "at": d.name}
         q.rerender()
     return q
+
+
+# ------------------------------------------------------------------------------------------------
+# value and name hygiene: single constructs the compiler either has to refuse or has to carry through all four outputs
+
+PY_DESCRIPTOR_FOR = {  # descriptor class the generated Python class body calls for a field of that type text
+    "Double": "double", "Float": "float", "Int8": "int8", "Int16": "int16", "Int32": "int32", "Int64": "int64", "Uint8": "uint8", "Uint16": "uint16",
+    "Uint32": "uint32", "Uint64": "uint64", "Char": "char", "Byte": "byte", "String": "char[8]", "ByteArray": "byte[4]", "IntArray": "int32[4]",
+    "FloatArray": "double[2]",
+}
+PY_ONLY_KEYWORDS = ["from", "class", "def", "lambda", "import", "pass", "None", "and", "or", "not", "is", "in", "as", "assert", "del", "elif",
+                    "except", "raise", "with", "yield"]  # keywords of Python that no other target language reserves for field names
+C_ONLY_KEYWORDS = ["char", "float", "double", "struct", "int", "short", "long", "unsigned", "signed", "void", "const", "static", "union", "enum",
+                   "typedef", "auto", "register", "volatile", "extern", "goto", "sizeof"]  # keywords of C only (legal in Python, JavaScript object keys, MATLAB fields)
+NATIVE_SINGLE_WORDS = [n for n in NATIVE_NAMES if " " not in n]
+_BAD_NAMES = ["MAX-N", "N.MAX", "MAX N", "A+B", "RATE/2", "N-1", "pos-x"]
+HYGIENE_KINDS = (
+    ["const-nonfinite/inf", "const-nonfinite/neg-inf", "const-nonfinite/nan", "const-nonfinite/expr-inf", "const-nonfinite/expr-nan", "const-bool/true", "const-bool/false"]
+    + [f"name-not-identifier/{k}" for k in ("constant", "string", "alias", "host", "module", "struct", "message", "signal", "field")]
+    + [f"definition-named-like-native-type/{k}" for k in ("alias", "struct", "message", "signal")]
+    + ["field-named-like-descriptor/scalar", "field-named-like-descriptor/struct", "field-named-like-later-type/struct", "field-named-like-later-type/message",
+       "field-named-like-python-keyword", "field-named-like-c-keyword", "constant-named-like-field/constant", "constant-named-like-field/string",
+       "constant-named-like-field/imported"]
+)
+# kinds whose names are identifiers in Python, C, JavaScript and MATLAB alike
+HYGIENE_LEGAL_IDENTIFIERS = tuple(k for k in HYGIENE_KINDS if k.split("/")[0] in ("const-nonfinite", "const-bool", "field-named-like-descriptor",
+                                                                                 "field-named-like-later-type", "constant-named-like-field"))
+
+
+def minimal_program(import_coredefs: bool = False) -> Program:
+    """One file, one plain message: the smallest base for add_hygiene()."""
+    spec = FileSpec(path="root.yaml", defs=[Def("message", "HYG_BASE", "root.yaml", id=4990, flags=["message"],
+                                                fields=[FieldSpec("first", "int32", "int32"), FieldSpec("second", "int32", "int32")])])
+    return Program([spec], "root.yaml", {"auto_pad": True, "validate_alignment": True, "import_coredefs": import_coredefs}, "single", {"message"})
+
+
+def add_hygiene(program: Program, ch: Chooser, kind: Optional[str] = None) -> Optional[Program]:
+    """Copy of a well-formed program with ONE extra construct (new definitions appended to the root file, everything else
+    untouched) of a kind a careful compiler refuses and a careless one writes verbatim into its outputs:
+      const-nonfinite/*, const-bool/*   a constant whose value is .inf / -.inf / .nan (literal or result of an expression) or a YAML bool
+      name-not-identifier/<kind>        a constant / string constant / alias / host / module / struct / message / signal / field whose name
+                                        starts with a letter but is no identifier (MAX-N, N.MAX, MAX N, ...)
+      definition-named-like-native-type/<kind>   an alias / struct / message / signal called int, double, uint8, ...
+      field-named-like-descriptor/*     a field called like a descriptor class of the generated Python class body (Double, Int32, Struct,
+                                        ...) followed by a field that needs that descriptor
+      field-named-like-later-type/*     a field called like the struct (or MDF_<message>) type of a LATER field of the same definition
+      field-named-like-python-keyword   a field called from, class, lambda, ...
+      field-named-like-c-keyword        a field called char, float, struct, ... (the repository's own test definitions do that)
+      constant-named-like-field/*       a constant / string constant that has the name of a field (the C header #defines it)
+    The result has wellformed False (it is a near miss, not a member of the well-formed domain), classes "hygiene" and
+    "hygiene/<kind>", and ``expect`` = {"outcome": "ok-or-refused", "hygiene": kind, "label": kind's head (the construct class
+    for finding keys), "at": name of the added message, "legal_identifiers": bool}.  Contract for the checks: the compiler
+    either refuses the closure with one of its own errors, or every output loads and agrees."""
+    kind = kind or ch.choice(HYGIENE_KINDS)
+    if kind not in HYGIENE_KINDS:
+        raise ValueError(kind)
+    q = program.clone()
+    ctx = _Ctx(q, ch)
+    spec = q.spec(q.root)
+    path = spec.path
+    head, _, sub = kind.partition("/")
+    new: List[Def] = []
+    mname = ctx.fresh_name()
+    mfields = [FieldSpec("seq", "int32", "int32"), FieldSpec("val", "int32", "int32")]
+    info: Dict[str, Any] = {}
+
+    def fs(name, text):
+        m = re.match(r"\s*([\s\w]*?)\s*(?:\[(.*)\])?$", text)
+        ln = m.group(2)
+        return FieldSpec(name, text, m.group(1), int(ln) if ln and ln.isdigit() else (1 if ln else None), ln)
+
+    if head in ("const-nonfinite", "const-bool"):
+        text = {"inf": ".inf", "neg-inf": "-.inf", "nan": ".nan", "expr-inf": "1e308 * 10", "expr-nan": "1e308 * 10 - 1e308 * 10",
+                "true": ch.cos.choice(["true", "True"]), "false": "false"}[sub]
+        nm = ctx.fresh_name()
+        new.append(Def("constant", nm, path, value=None, text=text, flags=["hygiene"]))
+        info["name"] = nm
+    elif head == "name-not-identifier":
+        bad = ch.cos.choice(_BAD_NAMES)
+        while q.has(bad):
+            bad += "x"
+        info["name"] = bad
+        if sub == "constant":
+            new.append(Def("constant", bad, path, value=3, text="3"))
+        elif sub == "string":
+            new.append(Def("string", bad, path, value="text", style={"quote": '"'}))
+        elif sub == "alias":
+            new.append(Def("alias", bad, path, value="int32"))
+        elif sub == "host":
+            new.append(Def("host", bad, path, value=ctx.fresh_host_id()))
+        elif sub == "module":
+            new.append(Def("module", bad, path, value=ctx.fresh_mod_id()))
+        elif sub == "struct":
+            new.append(Def("struct", bad, path, fields=[fs("a", "int32"), fs("b", "int32")]))
+        elif sub == "message":
+            new.append(Def("message", bad, path, id=ctx.fresh_msg_id(), fields=[fs("a", "int32"), fs("b", "int32")]))
+        elif sub == "signal":
+            new.append(Def("signal", bad, path, id=ctx.fresh_msg_id()))
+        else:
+            mfields.insert(ch.integer(0, 2), fs(bad, "int32"))
+            mfields.append(fs("tail", "int32"))
+    elif head == "definition-named-like-native-type":
+        ckw = [n for n in NATIVE_SINGLE_WORDS if n in C_ONLY_KEYWORDS]
+        nm = ch.choice(ckw) if ch.chance(0.7) else ch.choice([n for n in NATIVE_SINGLE_WORDS if n not in ckw])
+        info["name"] = nm
+        if sub == "alias":
+            new.append(Def("alias", nm, path, value=ch.choice(["int16", "double", "uint8"])))
+        elif sub == "struct":
+            new.append(Def("struct", nm, path, fields=[fs("a", "double"), fs("b", "int32"), fs("c", "int32")]))
+        elif sub == "message":
+            new.append(Def("message", nm, path, id=ctx.fresh_msg_id(), fields=[fs("a", "double"), fs("b", "int32"), fs("c", "int32")]))
+        else:
+            new.append(Def("signal", nm, path, id=ctx.fresh_msg_id()))
+    elif head == "field-named-like-descriptor":
+        if sub == "scalar":
+            desc = ch.choice(sorted(PY_DESCRIPTOR_FOR))
+            tt = PY_DESCRIPTOR_FOR[desc]
+            first_t = tt if ch.chance(0.5) else "int32"
+            mfields = [fs(desc, first_t), fs("other", tt), fs("more", tt)]
+        else:
+            sname = ctx.fresh_name()
+            new.append(Def("struct", sname, path, fields=[fs("p", "double"), fs("q", "double")]))
+            desc = ch.choice(["Struct", "StructArray"])
+            mfields = [fs(desc, "double"), fs("other", sname if desc == "Struct" else f"{sname}[2]"), fs("more", sname if desc == "Struct" else f"{sname}[3]")]
+        info["name"] = desc
+    elif head == "field-named-like-later-type":
+        tname = ctx.fresh_name()
+        if sub == "struct":
+            new.append(Def("struct", tname, path, fields=[fs("x", "double"), fs("y", "double")]))
+            fname = tname
+        else:
+            new.append(Def("message", tname, path, id=ctx.fresh_msg_id(), fields=[fs("x", "double"), fs("y", "double")]))
+            fname = "MDF_" + tname
+        first_t = tname if (sub == "struct" and ch.chance(0.5)) else "double"
+        mfields = [fs(fname, first_t), fs("q", tname if ch.chance(0.5) else f"{tname}[2]")]
+        info["name"] = fname
+    elif head in ("field-named-like-python-keyword", "field-named-like-c-keyword"):
+        kw = ch.choice(PY_ONLY_KEYWORDS if "python" in head else C_ONLY_KEYWORDS)
+        mfields.insert(ch.integer(0, 2), fs(kw, ch.choice(["int32", "double", "int32[2]"])))
+        if len(mfields) % 2 and all(f.base == "int32" for f in mfields):
+            mfields.append(fs("tail", "int32"))
+        info["name"] = kw
+    elif head == "constant-named-like-field":
+        fname = ch.cos.choice(["count", "n_chans", "size", "len", "default_msg", "width", "rate"])
+        cfile = path
+        if sub == "imported" and len(q.file_order) > 1:
+            cfile = ch.choice([f for f in q.file_order if f != path])
+        if sub == "string":
+            cdef = Def("string", fname, cfile, value="hello_world", style={"quote": '"'})
+            mfields = [fs(fname, "int32"), fs("data", "int32[3]")]
+        else:
+            cdef = Def("constant", fname, cfile, value=4, text="4")
+            mfields = [fs(fname, "int32"), fs("data", f"int32[{fname}]" if ch.chance(0.5) else "int32[3]")]
+            if mfields[1].length_text == fname:
+                mfields[1].length = 4
+        if q.has(fname):
+            return None
+        if cfile == path:
+            new.append(cdef)
+        else:
+            q.spec(cfile).defs.append(cdef)
+        info["name"] = fname
+    else:  # pragma: no cover
+        raise ValueError(kind)
+    new.append(Def("message", mname, path, id=ctx.fresh_msg_id(), fields=mfields, flags=["message", "hygiene"]))
+    spec.defs.extend(new)
+    q.classes |= {"hygiene", "hygiene/" + kind}
+    q.wellformed = False
+    q.expected_error = None
+    q.expect = {"outcome": "ok-or-refused", "hygiene": kind, "label": head, "at": mname, "legal_identifiers": kind in HYGIENE_LEGAL_IDENTIFIERS, **info}
+    q._files = None
+    q._an = None
+    q._files = {s_.path: render_file(s_) for s_ in q.specs}  # rendered directly: the analysis has no model for these constructs
+    return q
+
+
+def hygiene_programs(kinds: Optional[Sequence[str]] = None, **kw):
+    """Strategy: a well-formed closure (``programs(**kw)``) plus one construct of add_hygiene(), kind drawn from ``kinds``."""
+    from hypothesis import strategies as st
+
+    core_defs()
+    pool = list(kinds or HYGIENE_KINDS)
+
+    @st.composite
+    def _hp(draw):
+        ch = HypChooser(draw)
+        kind = ch.choice(pool)
+        base = build_program(ch, **kw)
+        return add_hygiene(base, ch, kind) or add_hygiene(minimal_program(base.import_coredefs), ch, kind)
+
+    return _hp()
 
 
 def build_name_cover_program(ch: Chooser, import_coredefs: bool = False, lengths: Sequence[int] = tuple(COVER_NAME_LENGTHS),
